@@ -3,11 +3,22 @@ C11 -- geometric operations are rigid motions with the documented effect.
 
 Monitor shapes
 * runtime contracts (icontract, vmon/contracts.py) on the real `rotation_matrix_from_vectors` and
-  `rotation_matrix_from_axis`, rebound in every molli module that refers to them, active in every chunk;
+  `rotation_matrix_from_axis`, rebound in every molli module that refers to them, active in every chunk; on top of
+  them the conditioning-aware clauses of vmon/models/c11_tight.py (bound ~ eps * condition of the input);
 * harness oracles around each top-level operation: pairwise distance matrices, signed volumes of the
   centres with >= 3 neighbours, documented effect (row-vector convention, displacement, centring),
   row-exactness of Substructure edits, dihedral after rotate_dihedral, achieved RMSD and pose independence
   of align_to_ref_coords with a Kabsch `func` that lives in the harness.
+
+Added after the gap review (inputs in vmon/models/c11_workload.py, bounds in vmon/models/c11_tight.py):
+* conditioning-aware bounds for both constructors and a densely sampled parallel neighbourhood / small-angle range;
+* torsions down to 1e-6 rad from linear, judged with a tolerance ~ 1/(sin * sin);
+* molecules with dummy atoms / attachment points and with spectator components in every molecular workload;
+* Substructure edits through nested views and rotate_dihedral called on a Substructure (root rows judged; the unchanged
+  library loses these edits: KNOWN_ON_UNCHANGED_TREE, tools/findings/C11-ext.json);
+* long-lived views in every member order across deletions between / beyond their members;
+* documented effect of the alignment (core centred, optimum over the given mappings, identical core on the reference)
+  and of centroid().
 
 Top level: stdlib only (numpy / molli are imported inside functions).
 """
@@ -20,26 +31,50 @@ LEVEL = "exploration"
 EXHAUSTIVE = False
 CHUNK_TIMEOUT = 600
 RULE = ("seeded random vectors/axes/angles incl. the degenerate neighbourhoods (v2 = -v1 + d*p for d in 1e-3..1e-12 "
-        "on a grid and log-uniform, d = 0 exactly, the branch switch of both tolerances in use, angle 0/pi/2pi, "
-        "axis-aligned and rescaled vectors); every bundled .mol2 molecule <= 120 atoms plus generated 3-D trees, "
-        "ring-closed trees and random graphs; every acyclic bond with substituents on both ends in both directions (quick: "
-        "a seeded sample of 8-12 directed bonds per molecule) "
-        "x 8 target angles; random ensembles (1..8 conformers, incl. n_conformers == n_atoms == 3) and pentane_confs. "
+        "on a grid and log-uniform, d = 0 exactly, the branch switch of both tolerances in use; v2 = v1 + d*p for d "
+        "log-uniform in 1e-16..1e-2 and on a 15-point grid incl. 0; angle 0/pi/2pi and log-uniform 1e-16..1e-1 around 0 "
+        "and +-pi, axis-aligned and rescaled vectors); every bundled .mol2 molecule <= 120 atoms plus generated 3-D trees, "
+        "ring-closed trees and random graphs, every second one with 1-3 dummy atoms / attachment points as leaves, every "
+        "third one with further components (a second small tree, isolated atoms); every acyclic bond with substituents on "
+        "both ends in both directions (quick: a seeded sample of 8-12 directed bonds per molecule) x 8 target angles, called "
+        "on the Molecule / Conformer and (1 in 6) on a Substructure holding all atoms in another order; molecules whose bond "
+        "angle at one or both ends of the turned bond is within 1e-6..5e-2 rad of 180 degrees; Substructure edits through "
+        "views one, two and three levels deep (unsorted, by position or by atom) judged in the root's rows; long-lived views "
+        "(ascending, descending, random, both end members low / high in the parent) re-used after deletions before, between, "
+        "beyond both ends of and after their members; random ensembles (1..8 conformers, incl. n_conformers == n_atoms == "
+        "3) and pentane_confs; alignments incl. identical cores and cores with placeholder atoms. "
         "non-trivial = non-degenerate input and (>= 4 atoms moved | rotation angle not 0 | rmsd problem with >= 4 core "
         "atoms); distinct by operation + rounded inputs")
 ASSUMPTIONS = [
-    "rotation constructors: orthogonality, determinant and image within 1e-6 (vectors) / 1e-9 (axis); vectors with "
-    "1e-6 <= |v| <= 1e6; the contract is vacuous for zero / non-finite vectors",
+    "rotation_matrix_from_vectors: orthogonality, determinant and image within min(1e-6, 64 * eps * (1 + 1/(1 + cos(v1, v2)))), "
+    "eps = 2^-52: the documented (Rodrigues) form divides by 1 + cos, so its error is eps times that condition number "
+    "(measured on the unchanged code: <= 7.2 * eps * (1 + 1/(1 + cos)) over 4e5 inputs; 1.4e-14 for perpendicular, 2.1e-14 for "
+    "parallel vectors); the 1e-6 cap is what the form reaches right at its default branch switch (1 + cos = 1e-8) and is "
+    "also the bound below the switch, where the documentation promises only an approximate answer. "
+    "rotation_matrix_from_axis: all clauses within 256 * eps = 5.7e-14 (closed formula of sin / cos; measured <= 11 * eps). "
+    "Vectors with 1e-6 <= |v| <= 1e6; the contracts are vacuous for zero / non-finite vectors. The shared 1e-6 / 1e-9 "
+    "contracts of vmon/contracts.py stay installed underneath",
     "distances compared with max|dD| <= 1e-9 * max(1, largest |coordinate| before/after); handedness = sign of the "
     "signed volume of a centre and three of its neighbours, judged only where |volume| > 1e-6 * scale^3",
-    "dihedral compared modulo 2*pi within 1e-8, only where both bond angles have sin > 0.05 (torsion defined)",
+    "dihedral compared modulo 2*pi within max(1e-8, 64 * eps * scale / (s1 * s2)) (target) and max(1e-9, the same) (molli's "
+    "dihedral() against the harness's projection formula), s1, s2 = sines of the two bond angles: the triple products behind "
+    "the angle lose 1/(s1*s2) of their digits (measured on the unchanged code <= 1.2 * eps * scale / (s1*s2)); judged where "
+    "min(s1, s2) >= 5e-7 and s1 * s2 >= 1e-8, i.e. down to 1e-6 rad from linear",
     "alignment: func is a rotation-only Kabsch written in the harness (proper rotations, rmsd computed from the rotated "
     "coordinates); RMSD compared within 1e-8 * scale, final poses within 1e-6 * scale when the best mapping is "
-    "separated from the others by > 1e-3 and the Kabsch problem is non-degenerate",
-    "for exactly/nearly antiparallel vectors the implementation draws from numpy's global generator; the harness seeds it "
-    "per case (hidden state itself is judged under C12)",
+    "separated from the others by > 1e-3 and the Kabsch problem is non-degenerate. Documented effect (docstrings of "
+    "ConformerEnsemble.align_to_ref_coords / optimal_rotation_to_ref_coords / center_at_core; Molecule.align_to_ref_coords "
+    "has none and is held to the same): the core is centred, the lowest rmsd over the given mappings is picked, vec is added "
+    "afterwards -- judged only where all mappings name one set of atoms (the centring is then the same whichever mapping "
+    "is used for it): returned rmsd = min over the mappings of the full Kabsch rmsd, core centroid on vec, an identical "
+    "core lands on the reference. centroid() = plain mean of the rows (placeholder atoms are atoms)",
+    "a translate() argument that is not a 3-vector (one displacement per atom, shape (n_atoms, 3)) is outside the statement "
+    "(the unchanged code refuses it); not part of the workload",
+    "for exactly/nearly antiparallel vectors the implementation may draw from numpy's global generator; the harness seeds "
+    "it per case (hidden state itself is judged under C12)",
 ]
-TECHNIQUE = ("runtime monitoring: icontract postconditions on the real rotation constructors (rebound in every molli module) "
+TECHNIQUE = ("runtime monitoring: icontract postconditions on the real rotation constructors (rebound in every molli module; "
+             "bounds follow the condition of the input) "
              "+ rigid-motion oracles (distance matrices, signed volumes, dihedral, achieved RMSD) around each operation")
 LEVEL_TEXT = ("Held on the executions produced: every call of the two rotation constructors made in the run (harness calls and "
               "calls made by molli itself, e.g. CDXML parsing, joins, rotate_dihedral) is checked by contracts; every "
@@ -58,7 +93,7 @@ def REQUIRED(tier):
         "contract.rmfa.proper": 10000, "contract.rmfa.sense": 5000,
         "oracle.rmfv": 20000, "oracle.rmfa": 10000,
         "rmfv.regime.antiparallel-exact": 1000, "rmfv.regime.antiparallel-near": 5000,
-        "rmfv.regime.branch-switch": 1000, "rmfv.regime.axis-aligned": 1000, "rmfv.regime.parallel-near": 500,
+        "rmfv.regime.branch-switch": 1000, "rmfv.regime.axis-aligned": 1000,
         "rmfa.angle-zero": 100, "rmfa.angle-pi": 400,
         "oracle.translate": 100, "oracle.transform": 200, "oracle.handedness": 20000,
         "oracle.substructure-rows": 400, "oracle.substructure-view": 400, "oracle.conformer-only": 500,
@@ -70,8 +105,24 @@ def REQUIRED(tier):
         "oracle.align-ens.achieved": 200, "oracle.align-ens.pose": 200, "oracle.align-ens.final-pose": 100,
         "kabsch.calls": 1000,
     }
+    # added after the gap review (thresholds <= half of what seeds 0-2 reach)
+    req.update({
+        "contract.rmfv.image-tight": 30000, "contract.rmfv.orthogonal-tight": 30000, "contract.rmfv.proper-tight": 30000,
+        "contract.rmfa.angle-tight": 10000, "contract.rmfa.axis-tight": 10000, "contract.rmfa.orthogonal-tight": 10000,
+        "contract.rmfa.proper-tight": 10000,
+        "oracle.rmfv.bound-below-1e-12": 5000, "rmfv.regime.parallel-near": 2000, "rmfa.angle-near-zero-or-pi": 1500,
+        "geom.molecule-with-placeholders": 30, "oracle.centroid": 100, "oracle.centroid.with-placeholders": 30,
+        "oracle.nested-substructure-view": 400, "oracle.nested-substructure-rows": 500,
+        "oracle.rotate_dihedral.near-linear": 250, "oracle.dihedral-formula.near-linear": 250,
+        "oracle.rotate_dihedral.placeholder-in-moved-part": 1000, "oracle.rotate_dihedral.with-spectators": 1000,
+        "oracle.rotate_dihedral.via-substructure": 600,
+        "oracle.align-mol.optimal": 50, "oracle.align-ens.optimal": 120, "oracle.align-mol.identical-core": 15,
+        "oracle.align-ens.identical-core": 40, "oracle.align.placeholder-in-core": 60,
+        "oracle.center_at_core.placeholder-in-core": 15,
+        "oracle.stale-view": 300, "oracle.stale-view.unsorted": 200, "stale-view.del.between": 120,
+        "stale-view.del.beyond-both-ends": 30, "stale-view.del.shifts-inner-members-only": 50,
+    })
     req = {name: n * k for name, n in req.items()}
-    req["oracle.stale-view"] = 60 * k
     req["oracle.rmfa.argument-unchanged"] = 3000 * k
     req["oracle.rmfv.argument-unchanged"] = 10000 * k
     req["realistic.cdxml-molecules"] = 50
@@ -80,6 +131,7 @@ def REQUIRED(tier):
 
 TWO_PI = 2.0 * math.pi
 DELTAS = [1e-3, 1e-4, 1e-5, 1e-6, 1e-7, 1e-8, 1e-9, 1e-10, 1e-11, 1e-12, 0.0]
+PARALLEL_DELTAS = [1e-2, 1e-3, 1e-4, 1e-5, 3e-6, 1e-6, 3e-7, 1e-7, 1e-8, 1e-9, 1e-10, 1e-12, 1e-14, 1e-15, 0.0]
 
 
 # =================================================================================================
@@ -101,12 +153,12 @@ def plan(tier, seed):
         specs.append({"kind": "dihedral", "chunk": i, "source": "bundled", "part": i, "of": 4 if q else 8,
                       "max_bonds": 12 if q else 10 ** 6})
     for i in range(16 if q else 96):
-        specs.append({"kind": "dihedral", "chunk": 100 + i, "source": "generated", "n": 8 if q else 16,
+        specs.append({"kind": "dihedral", "chunk": 100 + i, "source": "generated", "n": 12 if q else 24,
                       "max_bonds": 8 if q else 10 ** 6})
     for i in range(16 if q else 64):
         specs.append({"kind": "align", "chunk": i, "n": 30 if q else 100})
-    for i in range(4 if q else 16):
-        specs.append({"kind": "staleview", "chunk": i, "n": 40 if q else 150})
+    for i in range(8 if q else 32):
+        specs.append({"kind": "staleview", "chunk": i, "n": 60 if q else 150})
     specs.append({"kind": "realistic", "chunk": 0})
     if not q:  # ~16 s of one core for ~240 contract evaluations: thorough only
         specs.append({"kind": "testsuite", "chunk": 0, "timeout": 900})
@@ -356,6 +408,34 @@ def run_op(ctx, op, case, fn):
     return False, None
 
 
+# Violation keys that the UNCHANGED library produces; written up with a tested fix in /verif/tools/findings/C11-ext.json.
+# They are counted ("known.<key>") instead of reported.  REMOVE AFTER THE REPAIR (set VERIF_C11_REPORT_KNOWN=1 to have
+# them reported, e.g. against a repaired worktree).  One mechanism: the coords setter of a Substructure whose parent is a
+# Substructure writes into a temporary copy, so an edit through a nested view (and Substructure.rotate_dihedral, which
+# builds one) is lost.
+KNOWN_ON_UNCHANGED_TREE = set()      # (its six entries, edits through nested views, were repaired in the library)
+
+
+class Known:
+    """ctx proxy: violations whose key is in KNOWN_ON_UNCHANGED_TREE are counted, not reported"""
+
+    def __init__(self, ctx):
+        self.__dict__["_ctx"] = ctx
+
+    def __getattr__(self, name):
+        return getattr(self._ctx, name)
+
+    def __setattr__(self, name, value):
+        setattr(self._ctx, name, value)
+
+    def violation(self, key, /, case=None, **detail):
+        import os
+        if key in KNOWN_ON_UNCHANGED_TREE and not os.environ.get("VERIF_C11_REPORT_KNOWN"):
+            self._ctx.count("known." + key)
+            return
+        self._ctx.violation(key, case=case, **detail)
+
+
 # =================================================================================================
 # chunk dispatcher
 
@@ -367,9 +447,12 @@ def run_chunk(spec, ctx):
     import molli.math.rotation as rotmod
     from vmon import contracts
 
+    from vmon.models import c11_tight
+
     warnings.simplefilter("ignore")
+    ctx = Known(ctx)
     original_rmfv = rotmod.rotation_matrix_from_vectors
-    inst = contracts.install_rotation_contracts()
+    inst = c11_tight.install()   # the shared contracts + the conditioning-aware clauses
     ctx.note("contract_sites", sorted(set(contracts.site_names(inst["rmfv"][2]) + contracts.site_names(inst["rmfa"][2])))
              if spec["kind"] == "realistic" else [])
     reach = contracts.BranchReach(getattr(original_rmfv, "__vmon_original__", original_rmfv), "tol").start()
@@ -390,8 +473,15 @@ def run_chunk(spec, ctx):
             ctx.count("contract." + k, v)
         for k, v in contracts.VACUOUS.items():
             ctx.count("contract-vacuous." + k, v)
+        for k, v in c11_tight.COUNTS.items():
+            ctx.count("contract." + k, v)
+        for k, v in c11_tight.VACUOUS.items():
+            ctx.count("contract-vacuous." + k, v)
         if contracts.WORST:
             ctx.note("contract_worst_error", [{k: float(f"{v:.3g}") for k, v in sorted(contracts.WORST.items())}])
+        if c11_tight.WORST:
+            ctx.note("tight_contract_worst_error_over_bound",
+                     [{k: float(f"{v:.3g}") for k, v in sorted(c11_tight.WORST.items())}])
         hand = contracts._SENSE["hand"]
         if hand:
             ctx.count("rmfa.hand.right" if hand > 0 else "rmfa.hand.left")
@@ -408,7 +498,7 @@ def rotvec_case(rng, j):
     s2 = 10.0 ** rng.uniform(-6, 6) if rng.random() < 0.3 else rng.choice([1.0, 1.0, 0.5, 7.0])
     tol = None
     meta = {}
-    if kind in (0, 1, 2):
+    if kind in (0, 1):
         return "random", gvec(rng) * s1, gvec(rng) * s2, rng.choice([None, None, 1e-6]), meta
     if kind == 3:
         e = np.eye(3)
@@ -450,10 +540,11 @@ def rotvec_case(rng, j):
         d = d0 * (1 + rng.uniform(-0.02, 0.02)) if rng.random() < 0.7 else d0 * (1 + rng.uniform(-1e-6, 1e-6))
         meta["delta"] = d
         return "branch-switch", u * s1, (-u + d * p) * s2, tol, meta
-    if kind == 14:
-        d = rng.choice([0.0, 1e-3, 1e-6, 1e-9, 1e-12, 1e-15])
+    if kind in (2, 14):
+        # the parallel neighbourhood as densely as the antiparallel one: log-uniform 1e-16 .. 1e-2 and a grid (0 = parallel)
+        d = 10.0 ** rng.uniform(-16.0, -2.0) if kind == 2 or rng.random() < 0.5 else PARALLEL_DELTAS[rng.randrange(len(PARALLEL_DELTAS))]
         meta["delta"] = d
-        return "parallel-near", u * s1, (u + d * p) * s2, None, meta
+        return "parallel-near", u * s1, (u + d * p) * s2, rng.choice([None, None, 1e-6]), meta
     # vectors straddling the antiparallel direction with one zero component (sign patterns)
     lst = [rng.choice([1.0, -1.0]), rng.choice([0.0, 1.0]), 0.0]
     rng.shuffle(lst)
@@ -479,9 +570,11 @@ def chunk_rotvec(spec, ctx):
     import molli as ml
     from vmon import contracts
 
+    from vmon.models import c11_tight
+
     f = ml.math.rotation_matrix_from_vectors
     raw = getattr(f, "__vmon_original__", f)
-    worst = {}
+    worst, worst_q = {}, {}
     for j in range(spec["n"]):
         case = [spec["chunk"], j]
         if not ctx.want(case):
@@ -534,13 +627,22 @@ def chunk_rotvec(spec, ctx):
                 ctx.violation(f"rotation_matrix_from_vectors:result-not-finite-3x3:{regime}", case=case, by="harness",
                               result=repr(r)[:200], **witness)
             continue
+        # bound: 64 eps (1 + 1/(1 + cos)), at most 1e-6 (what the documented form reaches next to its branch switch)
+        bound = c11_tight.rmfv_bound(unit(v1), unit(v2))
+        if bound < 1e-9:
+            ctx.count("oracle.rmfv.bound-below-1e-9")
+        if bound < 1e-12:
+            ctx.count("oracle.rmfv.bound-below-1e-12")
         for k, e in errs.items():
             worst[(regime, k)] = max(worst.get((regime, k), 0.0), e)
-            if not (e <= 1e-6) and not reported:
+            worst_q[(regime, k)] = max(worst_q.get((regime, k), 0.0), e / bound)
+            if not (e <= bound) and not reported:
                 ctx.violation(f"rotation_matrix_from_vectors:{k}:{regime}", case=case, by="harness", errors=errs,
-                              result=jl(r), **witness)
+                              bound=bound, result=jl(r), **witness)
                 reported = True
     ctx.note("rmfv_worst_error_by_regime", [{f"{a}/{b}": float(f"{v:.3g}") for (a, b), v in sorted(worst.items())}])
+    ctx.note("rmfv_worst_error_over_bound_by_regime",
+             [{f"{a}/{b}": float(f"{v:.3g}") for (a, b), v in sorted(worst_q.items())}])
 
 
 # =================================================================================================
@@ -553,6 +655,8 @@ def chunk_rotaxis(spec, ctx):
     import numpy as np
     import molli as ml
     from vmon import contracts
+
+    from vmon.models import c11_tight
 
     f = ml.math.rotation_matrix_from_axis
     raw = getattr(f, "__vmon_original__", f)
@@ -579,15 +683,20 @@ def chunk_rotaxis(spec, ctx):
             axis = gvec(rng)
             axis[rng.randrange(3)] = 0.0
             aclass = "in-coordinate-plane"
-        m = (j // 8) % 4
+        m = (j // 8) % 5
         if m == 0:
             angle = ANGLES[rng.randrange(len(ANGLES))]
         elif m == 1:
             angle = rng.uniform(-math.pi, math.pi)
         elif m == 2:
             angle = rng.uniform(-TWO_PI, TWO_PI)
-        else:
+        elif m == 3:
             angle = rng.uniform(-100, 100)
+        else:
+            # the neighbourhoods of 0 and of +-pi, log-uniform (a shortcut "angle ~ 0 => identity" lives here)
+            tiny = rng.choice([1.0, -1.0]) * 10.0 ** rng.uniform(-16.0, -1.0)
+            angle = tiny if rng.random() < 0.6 else rng.choice([math.pi, -math.pi]) + tiny
+            ctx.count("rmfa.angle-near-zero-or-pi")
         if angle == 0.0:
             ctx.count("rmfa.angle-zero")
         if abs(abs(angle) - math.pi) < 1e-8:
@@ -637,9 +746,9 @@ def chunk_rotaxis(spec, ctx):
             "angle-wrong": max(abs(cosv - math.cos(angle)), abs(abs(sinv) - abs(math.sin(angle)))),
         }
         for name, e in errs.items():
-            if not (e <= 1e-9) and not reported:
+            if not (e <= c11_tight.RMFA_BOUND) and not reported:     # 256 eps
                 ctx.violation(f"rotation_matrix_from_axis:{name}", case=case, by="harness", errors=errs,
-                              result=jl(r), probe_vector=jl(v), **witness)
+                              bound=c11_tight.RMFA_BOUND, result=jl(r), probe_vector=jl(v), **witness)
                 reported = True
         if abs(math.sin(angle)) > 1e-6 and abs(sinv) > 1e-7:
             hand = 1 if (sinv > 0) == (math.sin(angle) > 0) else -1
@@ -675,17 +784,32 @@ def bundled_molecules(max_atoms=120):
     return out
 
 
-def generated_molecule(rng, which=None):
-    """tree / ring-closed tree / random graph in general position"""
+def generated_molecule(rng, which=None, decorate=False):
+    """tree / ring-closed tree / random graph in general position; decorate: dummy atoms / attachment points as leaves
+    (every second molecule) and further components -- a second small tree, isolated atoms (every third)"""
     from vmon import gen
     which = which or rng.choice(["tree", "tree", "ring", "graph", "small"])
     if which == "tree":
-        return which, gen.tree3d(rng, rng.randrange(5, 26))
-    if which == "ring":
-        return which, gen.tree3d(rng, rng.randrange(6, 22), ring=True)
-    if which == "small":
-        return which, gen.molecule(rng, n_atoms=rng.choice([0, 1, 2, 3]), rich=False, special=0.0, name="small")
-    return which, gen.molecule(rng, n_atoms=rng.randrange(4, 30), rich=False, special=0.0, name="graph")
+        m = gen.tree3d(rng, rng.randrange(5, 26))
+    elif which == "ring":
+        m = gen.tree3d(rng, rng.randrange(6, 22), ring=True)
+    elif which == "small":
+        m = gen.molecule(rng, n_atoms=rng.choice([0, 1, 2, 3]), rich=False, special=0.0, name="small")
+    else:
+        m = gen.molecule(rng, n_atoms=rng.randrange(4, 30), rich=False, special=0.0, name="graph")
+    if decorate and which != "small":
+        from vmon.models import c11_workload as w
+        tags = ""
+        if rng.random() < 0.5 and w.placeholders(rng, m, n=rng.choice([1, 1, 2, 3])):
+            tags += "+ph"
+        if rng.random() < 0.35 and w.spectators(rng, m):
+            tags += "+sp"
+        which += tags
+    return which, m
+
+
+def placeholder_rows(mol):
+    return [i for i, a in enumerate(mol.atoms) if a.is_dummy or a.is_attachment_point]
 
 
 def some_vector(rng, as_type=True):
@@ -745,14 +869,18 @@ def chunk_geom(spec, ctx):
             name, mol = bundled[(spec["chunk"] * 7 + j // 3) % len(bundled)]
             src = name
         else:
-            src, mol = generated_molecule(mrng)
+            src, mol = generated_molecule(mrng, decorate=True)
         n = mol.n_atoms
         quads, _ = centre_quads(mol)
         base = np.array(mol.coords, dtype=float, copy=True)
         if not np.all(np.isfinite(base)):
             continue
+        ph = placeholder_rows(mol)
+        if ph:
+            ctx.count("geom.molecule-with-placeholders")
         for op in ("translate", "transform", "sub-translate", "sub-transform", "sub-assign", "sub-iadd",
-                   "translate-transform-sequence"):
+                   "translate-transform-sequence", "centroid", "nested-translate", "nested-transform", "nested-assign",
+                   "nested-iadd"):
             case = [spec["chunk"], j, op]
             if not ctx.want(case):
                 continue
@@ -806,6 +934,88 @@ def chunk_geom(spec, ctx):
                 orc.effect("translate-transform-sequence", case, (x0 - o) @ r + o, x1, what="image", molecule=src)
                 orc.rigid("translate-transform-sequence", case, x0, x1, molecule=src)
                 orc.handed("translate-transform-sequence", case, x0, x1, quads, molecule=src)
+            elif op == "centroid":
+                # documented: "Centroid of the molecule" (the plain mean of the coordinates, placeholders are atoms too);
+                # of a Substructure: the mean of its rows
+                if n < 1:
+                    continue
+                sel = rng.sample(range(n), rng.randrange(1, n + 1))
+                if ph and rng.random() < 0.7 and ph[0] not in sel:
+                    sel[rng.randrange(len(sel))] = ph[0]
+                ctx.case(case, dkey=("centroid", src, n, tuple(sel)), nontrivial=n >= 4)
+                ok, got = run_op(ctx, "centroid", case,
+                                 lambda: (np.array(mol.centroid(), dtype=float), np.array(mol.substructure(sel).centroid(), dtype=float)))
+                if not ok:
+                    continue
+                ctx.count("oracle.centroid")
+                if ph:
+                    ctx.count("oracle.centroid.with-placeholders")
+                orc.effect("centroid", case, x0.mean(axis=0), got[0], what="value", molecule=src, n_placeholders=len(ph))
+                orc.effect("substructure-centroid", case, x0[sel].mean(axis=0), got[1], what="value", molecule=src,
+                           selected=sel if len(sel) <= 12 else {"n": len(sel)}, n_placeholders=len(ph))
+                if not np.array_equal(np.array(mol.coords), x0):
+                    ctx.violation("centroid:coordinates-changed", case=case, molecule=src)
+            elif op.startswith("nested-"):
+                # a Substructure of a Substructure (two or three levels): the edit must arrive in the root's rows
+                if n < 3:
+                    continue
+                depth = rng.choice([2, 2, 3])
+                rows, view, built = list(range(n)), mol, []
+                for lvl in range(depth):
+                    m_ = len(rows)
+                    k = m_ if lvl == 0 and rng.random() < 0.3 else rng.randrange(1 if lvl else 2, m_ + 1)
+                    pick = rng.sample(range(m_), k)   # positions inside the current view, unsorted
+                    by = rng.choice(["indices", "atoms"])
+                    view = view.substructure(pick if by == "indices" else [view.atoms[t] for t in pick])
+                    rows = [rows[t] for t in pick]
+                    built.append(by)
+                sel = rows
+                rest = [i for i in range(n) if i not in set(sel)]
+                desc.update(selected=sel if len(sel) <= 12 else {"n": len(sel)}, levels=depth, selected_by=built)
+                kind = op[7:]
+                opname = f"nested-substructure:{kind}"
+                ctx.count("oracle.nested-substructure-view")
+                ok, got = run_op(ctx, opname + ":coords-getter", case, lambda: np.array(view.coords, copy=True))
+                if not ok:
+                    continue
+                orc.effect(opname, case, x0[sel], got, what="coords-view", tol=0.0, **desc)
+                if kind == "translate":
+                    arg, v = some_vector(rng)
+                    if not np.any(v):
+                        v = np.array([0.5, -1.0, 2.0])
+                        arg = v
+                    expect = x0[sel] + v
+                    fn = lambda: view.translate(arg)  # noqa: E731
+                elif kind == "transform":
+                    how, r = some_rotation(rng)
+                    expect = x0[sel] @ r
+                    fn = lambda: view.transform(r)  # noqa: E731
+                elif kind == "assign":
+                    new = np.array([gvec(rng) * 3 for _ in sel])
+                    expect = new
+
+                    def fn():
+                        view.coords = new
+                else:
+                    inc = np.array([gvec(rng) for _ in sel]) if rng.random() < 0.5 else gvec(rng)
+                    expect = x0[sel] + inc
+
+                    def fn():
+                        view.coords += inc
+                ctx.case(case, dkey=(opname, src, n, tuple(sel), jl(np.round(expect[:2], 6))),
+                         nontrivial=len(sel) >= 1 and len(rest) >= 1 and n >= 4, sample=None)
+                ok, _ = run_op(ctx, opname, case, fn)
+                if not ok:
+                    continue
+                x1 = np.array(mol.coords, copy=True)
+                ctx.count("oracle.nested-substructure-rows")
+                orc.rows_untouched(opname, case, x0, x1, rest, **desc)
+                if np.array_equal(x1[sel], x0[sel]) and float(np.max(np.abs(expect - x0[sel]))) > 1e-6:
+                    ctx.violation(f"{opname}:edit-lost", case=case, note="no row of the root structure changed", **desc)
+                else:
+                    orc.effect(opname, case, expect, x1[sel], what="selected-rows", **desc)
+                    if kind in ("translate", "transform"):
+                        orc.rigid(opname, case, x0, x1, rows=sel, what="distances-inside-selection", **desc)
             else:
                 if n < 2:
                     continue
@@ -885,6 +1095,9 @@ def make_ensemble(rng):
     else:
         n, nc = rng.randrange(4, 22), rng.choice([2, 3, 5, 8])
     base = gen.tree3d(rng, n, ring=rng.random() < 0.3)
+    if t in (2, 3, 5) and rng.random() < 0.8:
+        from vmon.models import c11_workload as w
+        w.placeholders(rng, base, n=rng.choice([1, 2]))    # attachment points / dummy atoms are atoms of the ensemble too
     n = base.n_atoms
     if t == 4:
         nc = n  # n_conformers == n_atoms
@@ -903,7 +1116,8 @@ def chunk_ens(spec, ctx):
 
     orc = Oracle(ctx)
     ops = ["translate-1d", "translate-2d", "rotate", "rotate-stack", "center_at_atom", "center_at_core",
-           "conformer-translate", "conformer-transform", "conformer-substructure-translate"]
+           "conformer-translate", "conformer-transform", "conformer-substructure-translate",
+           "conformer-nested-substructure-translate"]
     for j in range(spec["n"]):
         erng = ctx.rng("ens-make", spec["chunk"], j // len(ops))
         op = ops[j % len(ops)]
@@ -983,6 +1197,11 @@ def chunk_ens(spec, ctx):
             k = rng.choice([1, 2, 3, max(1, n // 2), n])
             k = min(k, n)
             core = rng.sample(range(n), k)
+            ph = placeholder_rows(ens)
+            if ph and k < n and rng.random() < 0.7 and not set(ph) & set(core):
+                core[rng.randrange(k)] = rng.choice(ph)
+            if set(ph) & set(core) and k >= 2:
+                ctx.count("oracle.center_at_core.placeholder-in-core")
             ctx.case(case, dkey=(op, src, tuple(core), jl(np.round(x0[0, 0], 6))), nontrivial=n >= 4 and nc >= 2,
                      sample=smp(ctx, {**desc, "core": core}) if nc >= 2 else None)
             ok, _ = run_op(ctx, name, case, lambda: ens.center_at_core(core))
@@ -1009,12 +1228,25 @@ def chunk_ens(spec, ctx):
                 expect = x0[c] @ r
                 fn = lambda: cf.transform(r)  # noqa: E731
                 rows = list(range(n))
-            else:
+            elif op == "conformer-substructure-translate":
                 rows = rng.sample(range(n), rng.randrange(1, n + 1))
                 arg, v = some_vector(rng)
                 expect = x0[c].copy()
                 expect[rows] += v
                 fn = lambda: cf.substructure(rows).translate(arg)  # noqa: E731
+            else:
+                # a Substructure of a Substructure of a conformer
+                outer = rng.sample(range(n), rng.randrange(2, n + 1))
+                pick = rng.sample(range(len(outer)), rng.randrange(1, len(outer) + 1))
+                rows = [outer[t] for t in pick]
+                arg, v = some_vector(rng)
+                if not np.any(v):
+                    v = np.array([1.0, 2.0, -0.5])
+                    arg = v
+                expect = x0[c].copy()
+                expect[rows] += v
+                fn = lambda: cf.substructure(outer).substructure(pick).translate(arg)  # noqa: E731
+                name = "conformer-nested-substructure:translate"
             ctx.case(case, dkey=(op, src, c, jl(np.round(expect[0], 6))), nontrivial=n >= 4 and nc >= 2,
                      sample=None)
             ok, _ = run_op(ctx, name, case, fn)
@@ -1022,6 +1254,14 @@ def chunk_ens(spec, ctx):
                 continue
             x1 = np.array(ens.coords, copy=True)
             ctx.count("oracle.conformer-only")
+            if op == "conformer-nested-substructure-translate":
+                ctx.count("oracle.nested-substructure-rows")
+                if np.array_equal(x1[c], x0[c]):
+                    if others and not np.array_equal(x0[others], x1[others]):
+                        ctx.violation(f"{name}:other-conformers-changed", case=case, conformer=c, **desc)
+                    ctx.violation(f"{name}:edit-lost", case=case, conformer=c, rows=rows if len(rows) <= 12 else len(rows),
+                                  note="no row of the ensemble changed", **desc)
+                    continue
             if others and not np.array_equal(x0[others], x1[others]):
                 ctx.violation(f"{name}:other-conformers-changed", case=case, conformer=c, **desc)
             rest = [i for i in range(n) if i not in set(rows)]
@@ -1062,55 +1302,102 @@ def target_angles(rng, d0):
     return [0.0, math.pi, -math.pi, math.pi / 2, d0, d0 + math.pi, rng.uniform(-math.pi, math.pi), rng.uniform(-10, 10)]
 
 
+def dihedral_tolerance(floor, sc, s1, s2):
+    """tolerance of a torsion angle whose two bond angles have the sines s1, s2: the triple products behind the angle
+    lose 1/(s1*s2) of their digits (measured on the unchanged code: <= 1.2 * eps * scale / (s1*s2) over 9e4 calls)"""
+    return max(floor, 64.0 * 2.0 ** -52 * sc / (s1 * s2))
+
+
 def chunk_dihedral(spec, ctx):
     import numpy as np
     import molli as ml
+    from vmon.models import c11_workload as w
 
     orc = Oracle(ctx)
-    mols = []  # (name, molecule, parent ensemble or None, conformer index)
+    mols = []  # (name, molecule, parent ensemble or None, conformer index, forced (k, i, j, l) or None)
     if spec["source"] == "bundled":
         allm = bundled_molecules()
-        mols = [(nm, m, None, None) for k, (nm, m) in enumerate(allm) if k % spec["of"] == spec["part"]]
+        mols = [(nm, m, None, None, None) for k, (nm, m) in enumerate(allm) if k % spec["of"] == spec["part"]]
         if spec["part"] == 0:
             ens = ml.ConformerEnsemble.load_mol2(ml.files.pentane_confs_mol2)
-            mols.append(("pentane_confs[3]", ens[3], ens, 3))
+            mols.append(("pentane_confs[3]", ens[3], ens, 3, None))
     else:
         for j in range(spec["n"]):
             rng = ctx.rng("dih-mol", spec["chunk"], j)
-            which, m = generated_molecule(rng, rng.choice(["tree", "tree", "ring"]))
+            if j % 4 == 2:
+                # bond angle(s) within 1e-6 .. 5e-2 rad of 180 degrees at one or both ends of the bond (alkynes, nitriles)
+                m, quad, _d = w.near_linear(rng)
+                if rng.random() < 0.3:
+                    w.placeholders(rng, m, n=1)
+                if rng.random() < 0.3:
+                    w.spectators(rng, m, n_components=1)
+                mols.append((f"nearlinear{m.n_atoms}-{spec['chunk']}.{j}", m, None, None, quad))
+                continue
+            which, m = generated_molecule(rng, rng.choice(["tree", "tree", "ring"]), decorate=True)
             if j % 4 == 3:  # a conformer of an ensemble is a Molecule too
                 x = np.array(m.coords)
                 e = ml.ConformerEnsemble(m, n_conformers=3,
                                          coords=np.array([x + 1.0, x @ random_rotation(rng), x * 1.0]))
-                mols.append((f"{which}{m.n_atoms}-conformer1-{spec['chunk']}.{j}", e[1], e, 1))
+                mols.append((f"{which}{m.n_atoms}-conformer1-{spec['chunk']}.{j}", e[1], e, 1, None))
             else:
-                mols.append((f"{which}{m.n_atoms}-{spec['chunk']}.{j}", m, None, None))
+                mols.append((f"{which}{m.n_atoms}-{spec['chunk']}.{j}", m, None, None, None))
     conv = {1: 0, -1: 0}
-    for name, mol, parent, cidx in mols:
+    for name, mol, parent, cidx, forced in mols:
         n = mol.n_atoms
         quads, nbrs = centre_quads(mol)
         nbrs = [sorted(set(x)) for x in nbrs]
         base = np.array(mol.coords, dtype=float, copy=True)
         if not np.all(np.isfinite(base)):
             continue
-        bonds = [(i, j, side) for (i, j, side) in acyclic_bonds(n, nbrs)
-                 if len(nbrs[i]) >= 2 and len(nbrs[j]) >= 2]
+        sc = scale_of(base)
+        ph = set(placeholder_rows(mol))
+        allb = acyclic_bonds(n, nbrs)
+        # connected components (own search): atoms outside the component of the bond are spectators
+        comp = list(range(n))
+        for a in range(n):
+            stack, seen = [a], {a}
+            if comp[a] != a:
+                continue
+            while stack:
+                b = stack.pop()
+                comp[b] = a
+                for c_ in nbrs[b]:
+                    if c_ not in seen:
+                        seen.add(c_)
+                        stack.append(c_)
+        n_comp = len(set(comp))
+        bonds = [(i, j, side) for (i, j, side) in allb if len(nbrs[i]) >= 2 and len(nbrs[j]) >= 2]
         brng = ctx.rng("dih-bonds", name)
         brng.shuffle(bonds)
-        for (i, j, side) in bonds[:spec["max_bonds"]]:
+        work = []   # (i, j, side, k, l)
+        if forced is not None:
+            k, i, j, l = forced
+            sides = {(a, b): sd for (a, b, sd) in allb}
+            if (i, j) in sides and (j, i) in sides:
+                work = [(i, j, sides[(i, j)], k, l), (j, i, sides[(j, i)], l, k)]
+        for (i, j, side) in bonds[:spec["max_bonds"]] if forced is None else []:
             arng = ctx.rng("dih-atoms", name, i, j)
-            inside_moved = set(side)
-            fixed = [a for a in range(n) if a not in inside_moved]
-            # neighbours as end atoms (the usual call); sometimes a remote atom of either part
+            fixed = [a for a in range(n) if a not in set(side)]
+            # neighbours as end atoms (the usual call); sometimes a remote atom of either part (same component)
             k = arng.choice([a for a in nbrs[i] if a != j])
             l = arng.choice([a for a in nbrs[j] if a != i])
             if arng.random() < 0.2:
-                k = arng.choice([a for a in fixed if a != i])
+                k = arng.choice([a for a in fixed if a != i and comp[a] == comp[i]])
             if arng.random() < 0.2:
                 l = arng.choice([a for a in side if a != j])
-            if sin_angle(base, k, i, j) < 0.05 or sin_angle(base, i, j, l) < 0.05:
+            work.append((i, j, side, k, l))
+        for (i, j, side, k, l) in work:
+            arng = ctx.rng("dih-targets", name, i, j, k, l)
+            inside_moved = set(side)
+            fixed = [a for a in range(n) if a not in inside_moved]
+            s1, s2 = sin_angle(base, k, i, j), sin_angle(base, i, j, l)
+            # the torsion is defined while neither bond angle is 0 / 180 degrees; its condition is 1/(s1*s2)
+            if not (min(s1, s2) >= 5e-7 and s1 * s2 >= 1e-8):
                 ctx.count("rotate_dihedral.skipped-collinear")
                 continue
+            near_lin = min(s1, s2) < 0.05
+            tol_target = dihedral_tolerance(1e-8, sc, s1, s2)
+            tol_formula = dihedral_tolerance(1e-9, sc, s1, s2)
             d0_own = torsion(base, k, i, j, l)
             mol.coords = base
             d0 = float(mol.dihedral(k, i, j, l))
@@ -1118,6 +1405,7 @@ def chunk_dihedral(spec, ctx):
                 case = [name, i, j, k, l, ti]
                 npseed = arng.randrange(2 ** 32)
                 how = arng.randrange(3)
+                via = arng.randrange(6)
                 if not ctx.want(case):
                     continue
                 np.random.seed(npseed)
@@ -1126,49 +1414,70 @@ def chunk_dihedral(spec, ctx):
                 p0 = np.array(parent.coords, copy=True) if parent is not None else None
                 turn = wrap(t - d0)
                 desc = {"molecule": name, "atoms": [k, i, j, l], "d0": d0, "target": t, "n_moved": len(side),
-                        "n_fixed": len(fixed)}
+                        "n_fixed": len(fixed), "sin_bond_angles": [s1, s2], "n_components": n_comp,
+                        "placeholders": sorted(ph)[:6]}
                 ctx.case(case, dkey=("rotate_dihedral", name.split("-")[0], n, i, j, k, l, round(t, 9), round(d0, 9)),
                          nontrivial=abs(turn) > 1e-6 and len(side) >= 2,
                          sample=smp(ctx, {"op": "rotate_dihedral", **desc}) if ti == 6 else None)
                 # the torsion reported by molli against the harness formula (either sign convention, consistently)
                 ctx.count("oracle.dihedral-formula")
-                if abs(wrap(d0 - d0_own)) <= 1e-9:
+                if near_lin:
+                    ctx.count("oracle.dihedral-formula.near-linear")
+                if abs(wrap(d0 - d0_own)) <= tol_formula:
                     conv[1] += 1
-                elif abs(wrap(d0 + d0_own)) <= 1e-9:
+                elif abs(wrap(d0 + d0_own)) <= tol_formula:
                     conv[-1] += 1
                 else:
                     ctx.violation("dihedral:not-the-torsion-angle", case=case, when="before rotate_dihedral",
-                                  molli=d0, harness=d0_own, coords=jl(base[[k, i, j, l]]), **desc)
+                                  molli=d0, harness=d0_own, tolerance=tol_formula, coords=jl(base[[k, i, j, l]]), **desc)
+                # the caller: the molecule / conformer itself, or (1 in 6) a Substructure that holds all its atoms in
+                # another order (rotate_dihedral is a method of Structure: every subclass inherits it)
+                caller, suffix = mol, ""
+                if via == 0:
+                    order = list(range(n))
+                    arng.shuffle(order)
+                    caller, suffix = mol.substructure(order), ":via-substructure"
+                    how = 1      # positions mean other atoms in the view: name the atoms themselves
+                    ctx.count("oracle.rotate_dihedral.via-substructure")
                 if how == 0:
                     atoms = (k, i, j, l)
                 elif how == 1:
                     atoms = tuple(mol.atoms[a] for a in (k, i, j, l))
                 else:
                     atoms = [k, i, j, l]
-                ok, _ = run_op(ctx, "rotate_dihedral", case, lambda: mol.rotate_dihedral(atoms, t))
+                ok, _ = run_op(ctx, "rotate_dihedral" + suffix, case, lambda: caller.rotate_dihedral(atoms, t))
                 if not ok:
                     continue
                 x1 = np.array(mol.coords, copy=True)
                 # 1. the requested dihedral is at the target (molli's dihedral() and the harness formula)
                 d1 = float(mol.dihedral(k, i, j, l))
-                defined = sin_angle(x1, k, i, j) >= 0.04 and sin_angle(x1, i, j, l) >= 0.04  # else: the rigidity oracles speak
+                t1, t2 = sin_angle(x1, k, i, j), sin_angle(x1, i, j, l)
+                defined = t1 >= 0.5 * s1 and t2 >= 0.5 * s2  # else: the rigidity oracles speak
                 d1_own = torsion(x1, k, i, j, l) if defined else float("nan")
                 ctx.count("oracle.rotate_dihedral.target")
-                if not abs(wrap(d1 - t)) <= 1e-8:
-                    if abs(wrap(d1 - (2 * d0 - t))) <= 1e-6:
+                if near_lin:
+                    ctx.count("oracle.rotate_dihedral.near-linear")
+                if ph & inside_moved:
+                    ctx.count("oracle.rotate_dihedral.placeholder-in-moved-part")
+                if n_comp > 1:
+                    ctx.count("oracle.rotate_dihedral.with-spectators")
+                if not abs(wrap(d1 - t)) <= tol_target:
+                    if np.array_equal(x1, x0):
+                        key = "rotate-dihedral-no-effect"
+                    elif abs(wrap(d1 - (2 * d0 - t))) <= max(1e-6, tol_target):
                         key = "rotate-dihedral-wrong-sense"
-                    elif abs(wrap(d1 - d0)) <= 1e-9:
+                    elif abs(wrap(d1 - d0)) <= tol_formula:
                         key = "rotate-dihedral-no-effect"
                     else:
                         key = "rotate-dihedral-target-missed"
-                    ctx.violation(key, case=case, observed=d1, observed_harness_formula=d1_own if defined else None,
-                                  mirror_image_2d0_minus_t=wrap(2 * d0 - t), **desc)
-                if defined and not (abs(wrap(d1 - d1_own)) <= 1e-9 or abs(wrap(d1 + d1_own)) <= 1e-9):
+                    ctx.violation(key + suffix, case=case, observed=d1, observed_harness_formula=d1_own if defined else None,
+                                  tolerance=tol_target, mirror_image_2d0_minus_t=wrap(2 * d0 - t), **desc)
+                if defined and not (abs(wrap(d1 - d1_own)) <= tol_formula or abs(wrap(d1 + d1_own)) <= tol_formula):
                     ctx.violation("dihedral:not-the-torsion-angle", case=case, when="after rotate_dihedral",
-                                  molli=d1, harness=d1_own, **desc)
+                                  molli=d1, harness=d1_own, tolerance=tol_formula, **desc)
                 # 2. fixed part bit-identical: exactly (a subset of) the part behind atoms[2] moved
                 ctx.count("oracle.rotate_dihedral.fixed-bit-identical")
-                orc.rows_untouched("rotate_dihedral", case, x0, x1, fixed, **desc)
+                orc.rows_untouched("rotate_dihedral" + suffix, case, x0, x1, fixed, **desc)
                 if p0 is not None:
                     p1 = np.array(parent.coords)
                     oth = [q for q in range(len(p0)) if q != cidx]
@@ -1177,11 +1486,11 @@ def chunk_dihedral(spec, ctx):
                         ctx.violation("rotate_dihedral:other-conformers-changed", case=case, **desc)
                 # 3. both parts internally rigid; the pivot atoms[1] keeps its distances to the moved part
                 ctx.count("oracle.rotate_dihedral.rigid")
-                orc.rigid("rotate_dihedral", case, x0, x1, rows=side, what="distances-inside-moved-part", **desc)
-                orc.rigid("rotate_dihedral", case, x0, x1, rows=fixed, what="distances-inside-fixed-part", **desc)
-                orc.rigid("rotate_dihedral", case, x0, x1, rows=[i] + side, what="distances-pivot-to-moved-part", **desc)
+                orc.rigid("rotate_dihedral" + suffix, case, x0, x1, rows=side, what="distances-inside-moved-part", **desc)
+                orc.rigid("rotate_dihedral" + suffix, case, x0, x1, rows=fixed, what="distances-inside-fixed-part", **desc)
+                orc.rigid("rotate_dihedral" + suffix, case, x0, x1, rows=[i] + side, what="distances-pivot-to-moved-part", **desc)
                 inside = [q for q in quads if all(a in inside_moved or a == i for a in q)]
-                orc.handed("rotate_dihedral", case, x0, x1, inside, **desc)
+                orc.handed("rotate_dihedral" + suffix, case, x0, x1, inside, **desc)
         mol.coords = base
     if conv[1] and conv[-1]:
         ctx.violation("dihedral:sign-convention-not-consistent", case=None, same=conv[1], opposite=conv[-1])
@@ -1196,6 +1505,7 @@ def chunk_align(spec, ctx):
     import numpy as np
     import molli as ml
     from vmon import gen
+    from vmon.models import c11_workload as w
 
     orc = Oracle(ctx)
 
@@ -1215,6 +1525,8 @@ def chunk_align(spec, ctx):
         np.random.seed(rng.randrange(2 ** 32))
         n = rng.randrange(6, 22)
         base = gen.tree3d(rng, n, ring=rng.random() < 0.3)
+        if rng.random() < 0.4:
+            w.placeholders(rng, base, n=rng.choice([1, 2]))    # fragments with attachment points / dummy atoms
         n = base.n_atoms
         if n < 5:
             continue
@@ -1222,8 +1534,14 @@ def chunk_align(spec, ctx):
         quads, _ = centre_quads(base)
         k = rng.randrange(4, min(n, 9) + 1) if rng.random() < 0.85 else 3
         core = rng.sample(range(n), k)
+        ph = placeholder_rows(base)
+        if ph and rng.random() < 0.7 and not set(ph) & set(core):
+            core[rng.randrange(k)] = rng.choice(ph)
+        ph_in_core = bool(set(ph) & set(core))
+        # identical core: the reference is an exact rigid image of the input's core (noise on the other atoms only)
+        exact = rng.random() < 0.4
         # reference: the core of the base (+ noise), centred at the origin, as a Substructure of its own molecule
-        refx = xb[core] + np.array([gvec(rng) for _ in core]) * rng.choice([0.0, 0.0, 0.02, 0.2])
+        refx = xb[core] + np.array([gvec(rng) for _ in core]) * (0.0 if exact else rng.choice([0.0, 0.0, 0.02, 0.2]))
         refx = refx - refx.mean(axis=0)
         refmol = ml.Molecule([ml.Atom(base.atoms[i].element) for i in core] + [ml.Atom("He")], name="ref",
                              coords=np.vstack([refx, [[50.0, 50.0, 50.0]]]))
@@ -1253,12 +1571,19 @@ def chunk_align(spec, ctx):
         poses = []
         for _ in range(nc):
             q = random_rotation(rng)
-            poses.append((xb + np.array([gvec(rng) for _ in range(n)]) * sig) @ q + gvec(rng) * rng.choice([0.0, 3.0, 30.0]))
+            noise = np.array([gvec(rng) for _ in range(n)]) * sig
+            if exact:
+                noise[core] = 0.0
+            poses.append((xb + noise) @ q + gvec(rng) * rng.choice([0.0, 3.0, 30.0]))
         poses = np.array(poses)
+        # every mapping names the same set of atoms: the centring on "the core" does not depend on which one is used,
+        # and the rotation-only Kabsch about the common centroid is the optimal superposition for each mapping
+        same_set = all(sorted(mp) == sorted(core) for mp in maps)
         # the same poses after one more rigid motion each
         moved = np.array([p @ random_rotation(rng) + gvec(rng) * rng.choice([1.0, 20.0]) for p in poses])
         desc = {"op": f"align_to_ref_coords[{kind}]", "n_atoms": n, "core": core, "n_mappings": len(maps),
-                "true_mapping_at": pos, "vec": None if vec is None else jl(vecv), "n_conformers": nc, "noise": sig}
+                "true_mapping_at": pos, "vec": None if vec is None else jl(vecv), "n_conformers": nc, "noise": sig,
+                "identical_core": exact, "placeholder_in_core": ph_in_core, "mappings_over_one_atom_set": same_set}
         ctx.case(case, dkey=(kind, n, tuple(core), jl(np.round(poses[0, 0], 6)), len(maps)),
                  nontrivial=k >= 4, sample=smp(ctx, desc))
 
@@ -1290,6 +1615,26 @@ def chunk_align(spec, ctx):
             if not abs(ach[0] - rmsds[c]) <= 1e-8 * sc:
                 ctx.violation(f"{tag}:returned-rmsd-not-achieved", case=case, conformer=c, returned=rmsds[c],
                               achieved_best_mapping=ach[0], achieved_all_mappings=ach[:4], **desc)
+            if same_set:
+                # documented effect: the core is centred ("reference should be centered at the origin", center_at_core),
+                # the lowest rmsd over the given mappings is picked, `vec` is added afterwards
+                ctx.count(f"oracle.{tag}.optimal")
+                if ph_in_core:
+                    ctx.count("oracle.align.placeholder-in-core")
+                best = min(kabsch_rotation(poses[c][mp] - poses[c][mp].mean(axis=0), refx)[1] for mp in maps)
+                if not abs(rmsds[c] - best) <= 1e-8 * sc:
+                    ctx.violation(f"{tag}:rmsd-not-the-optimum-over-the-given-mappings", case=case, conformer=c,
+                                  returned=rmsds[c], optimum=best, **desc)
+                cen = xa[c][core].mean(axis=0) - vecv
+                if not float(np.max(np.abs(cen))) <= 1e-8 * sc:
+                    ctx.violation(f"{tag}:core-centroid-not-on-reference-centroid", case=case, conformer=c,
+                                  core_centroid_minus_vec=jl(cen), **desc)
+                if exact:
+                    ctx.count(f"oracle.{tag}.identical-core")
+                    on_ref = rmsd_of(xa[c][core] - vecv, refx)
+                    if not (rmsds[c] <= 1e-8 * sc and on_ref <= 1e-8 * sc):
+                        ctx.violation(f"{tag}:identical-core-not-on-reference", case=case, conformer=c, returned=rmsds[c],
+                                      rmsd_core_to_reference=on_ref, **desc)
         ok, out = run_op(ctx, tag, case, lambda: run(moved))
         if not ok:
             continue
@@ -1378,7 +1723,7 @@ def chunk_testsuite(spec, ctx):
     env = dict(os.environ, VMON_CONTRACTS_OUT=str(out))
     try:
         subprocess.run([sys.executable, "-m", "pytest", "-q", "-p", "no:cacheprovider", "-p",
-                        "vmon.models.rigid_pytest_contracts", str(tests)], cwd=str(wd), env=env, timeout=420,
+                        "vmon.models.c11_pytest_contracts", str(tests)], cwd=str(wd), env=env, timeout=420,
                        stdout=subprocess.DEVNULL, stderr=subprocess.DEVNULL)
     except subprocess.TimeoutExpired:
         ctx.count("testsuite.timeout")
@@ -1405,6 +1750,7 @@ def chunk_testsuite(spec, ctx):
 
 def chunk_staleview(spec, ctx):
     import numpy as np
+    import molli as ml
     from molli.chem import Atom
 
     mols = bundled_molecules(max_atoms=60)
@@ -1414,69 +1760,115 @@ def chunk_staleview(spec, ctx):
             continue
         rng = ctx.rng("staleview", spec["chunk"], j)
         if j % 2 == 0 and mols:
-            import molli as ml
             name, m0 = mols[rng.randrange(len(mols))]
             m = ml.Molecule(m0)
         else:
-            name, m = generated_molecule(rng, rng.choice(["tree", "ring", "graph"]))
+            name, m = generated_molecule(rng, rng.choice(["tree", "ring", "graph"]), decorate=True)
         n = m.n_atoms
-        if n < 6:
+        if n < 8:
             continue
-        sel = sorted(rng.sample(range(2, n), rng.randrange(2, max(3, n // 2))))
-        members = [m.atoms[i] for i in sel]
-        how = rng.choice(["substructure", "substructure", "heavy"])
-        view = m.heavy if how == "heavy" else m.substructure(members if rng.random() < 0.5 else sel)
+        # the order of the members inside the view is part of the case: ascending, descending, random, and the two orders
+        # in which both END members stand low (high) in the parent while inner members stand beyond them
+        sel = rng.sample(range(n), rng.randrange(3, max(4, n // 2)))
+        order = rng.choice(["ascending", "descending", "random", "random", "ends-low", "ends-low", "ends-high"])
+        if order == "ascending":
+            sel.sort()
+        elif order == "descending":
+            sel.sort(reverse=True)
+        elif order in ("ends-low", "ends-high"):
+            ss = sorted(sel, reverse=order == "ends-high")
+            inner = ss[2:]
+            rng.shuffle(inner)
+            sel = [ss[0]] + inner + [ss[1]]
+        how = rng.choice(["substructure", "substructure", "substructure", "heavy"])
+        if how == "heavy":
+            view, order = m.heavy, "heavy"
+        else:
+            view = m.substructure([m.atoms[i] for i in sel] if rng.random() < 0.5 else list(sel))
         members = list(view.atoms)
-        _ = np.array(view.coords)           # touch the view once before the parent changes
-        edits = []
-        for _e in range(rng.randrange(1, 4)):
-            outsiders = [a for a in m.atoms if not any(a is x for x in members)]
-            r = rng.random()
-            if r < 0.6 and outsiders:
-                # prefer deleting an atom that stands before a member (shifts the members' row indices)
-                first_member = min(m.atoms.index(a) for a in members)
-                early = [a for a in outsiders if m.atoms.index(a) < first_member]
-                victim = rng.choice(early or outsiders)
-                edits.append(("del_atom", m.atoms.index(victim)))
-                m.del_atom(victim)
-            elif r < 0.85:
-                m.add_atom(Atom("H"), [rng.uniform(-9, 9) for _k in range(3)])
-                edits.append(("add_atom",))
-            else:
-                m.translate([0.5, -0.25, 0.125])
-                edits.append(("translate-parent",))
-        before = {id(a): np.array(m.coords[m.atoms.index(a)]) for a in m.atoms}
-        v = np.array([rng.uniform(-3, 3) for _k in range(3)])
-        op = rng.choice(["translate", "transform", "coords-setter"])
-        desc = {"op": f"stale-view:{op}", "molecule": name, "view": how, "n_selected": len(members), "parent_edits": edits}
-        ctx.case(case, dkey=(name, tuple(sel), tuple(e[0] for e in edits), op), nontrivial=any(e[0] == "del_atom" for e in edits),
-                 sample=desc)
-        R = random_rotation(rng)
-        try:
-            if op == "translate":
-                view.translate(v)
-            elif op == "transform":
-                view.transform(R)
-            else:
-                view.coords = np.array(view.coords) + v
-        except Exception as e:  # noqa: BLE001
-            ctx.violation(f"stale-view:{op}:raises:{type(e).__name__}", case=case, err=repr(e)[:200], **desc)
+        if len(members) < 2:
             continue
-        ctx.count("oracle.stale-view")
-        bad_moved, bad_member = None, None
-        for a in m.atoms:
-            now = m.coords[m.atoms.index(a)]
-            was = before[id(a)]
-            if any(a is x for x in members):
-                want = was @ R if op == "transform" else was + v
-                if not np.allclose(now, want, rtol=0, atol=1e-9 * (1 + np.abs(want).max())):
-                    bad_member = m.atoms.index(a)
-            elif not np.array_equal(now, was):
-                bad_moved = m.atoms.index(a)
-        if bad_moved is not None:
-            ctx.violation(f"stale-view:{op}:unselected-atom-moved-after-parent-edit", case=case, atom=bad_moved, **desc)
-        if bad_member is not None:
-            ctx.violation(f"stale-view:{op}:selected-atom-not-moved-as-requested-after-parent-edit", case=case, atom=bad_member, **desc)
+        _ = np.array(view.coords)           # touch the view once before the parent changes
+        desc0 = {"molecule": name, "view": how, "member_order": order, "n_selected": len(members)}
+        edits = []
+        ctx.case(case, dkey=(name, tuple(sel), order, how), nontrivial=True, sample=desc0)
+        for rnd in range(2):                # the same view is used again after further edits of its parent
+            for _e in range(rng.randrange(1, 3)):
+                pos = {id(a): i for i, a in enumerate(m.atoms)}
+                mpos = [pos[id(a)] for a in members]
+                outsiders = [a for a in m.atoms if not any(a is x for x in members)]
+                r = rng.random()
+                if r < 0.7 and outsiders:
+                    # which rows shift: all members (victim before the first), some (between), none (after the last);
+                    # "between-ends": below an inner member but above both end members of the view
+                    lo_end, hi_end = min(mpos[0], mpos[-1]), max(mpos[0], mpos[-1])
+                    classes = {
+                        "before-all": [a for a in outsiders if pos[id(a)] < min(mpos)],
+                        "between": [a for a in outsiders if min(mpos) < pos[id(a)] < max(mpos)],
+                        "beyond-both-ends": [a for a in outsiders if pos[id(a)] > hi_end and pos[id(a)] < max(mpos)],
+                        "below-both-ends": [a for a in outsiders if pos[id(a)] < lo_end],
+                        "after-all": [a for a in outsiders if pos[id(a)] > max(mpos)],
+                    }
+                    names = [c for c in ("between", "between", "beyond-both-ends", "beyond-both-ends", "before-all",
+                                         "below-both-ends", "after-all") if classes[c]]
+                    cls = rng.choice(names)
+                    victim = rng.choice(classes[cls])
+                    shifted = sum(1 for q in mpos if q > pos[id(victim)])
+                    edits.append(("del_atom", cls, pos[id(victim)]))
+                    ctx.count("stale-view.del." + cls)
+                    if 0 < shifted < len(mpos):
+                        ctx.count("stale-view.del.shifts-some-members")
+                    if mpos[0] < pos[id(victim)] and mpos[-1] < pos[id(victim)] and shifted:
+                        ctx.count("stale-view.del.shifts-inner-members-only")
+                    m.del_atom(victim)
+                elif r < 0.9:
+                    m.add_atom(Atom("H"), [rng.uniform(-9, 9) for _k in range(3)])
+                    edits.append(("add_atom",))
+                else:
+                    m.translate([0.5, -0.25, 0.125])
+                    edits.append(("translate-parent",))
+            before = {id(a): np.array(m.coords[i]) for i, a in enumerate(m.atoms)}
+            v = np.array([rng.uniform(-3, 3) for _k in range(3)])
+            op = rng.choice(["translate", "transform", "coords-setter", "coords-getter"])
+            desc = {"op": f"stale-view:{op}", **desc0, "round": rnd, "parent_edits": [list(e) for e in edits]}
+            R = random_rotation(rng)
+            try:
+                if op == "translate":
+                    view.translate(v)
+                elif op == "transform":
+                    view.transform(R)
+                elif op == "coords-getter":
+                    got = np.array(view.coords)
+                else:
+                    view.coords = np.array(view.coords) + v
+            except Exception as e:  # noqa: BLE001
+                ctx.violation(f"stale-view:{op}:raises:{type(e).__name__}", case=case, err=repr(e)[:200], **desc)
+                break
+            ctx.count("oracle.stale-view")
+            if order not in ("ascending", "heavy"):
+                ctx.count("oracle.stale-view.unsorted")
+            if op == "coords-getter":
+                want = np.array([before[id(a)] for a in members])
+                if got.shape != want.shape or not np.array_equal(got, want):
+                    ctx.violation("stale-view:coords-getter:rows-of-other-atoms-after-parent-edit", case=case, **desc)
+                if any(not np.array_equal(m.coords[i], before[id(a)]) for i, a in enumerate(m.atoms)):
+                    ctx.violation("stale-view:coords-getter:parent-changed", case=case, **desc)
+                continue
+            bad_moved, bad_member = None, None
+            for i, a in enumerate(m.atoms):
+                now = m.coords[i]
+                was = before[id(a)]
+                if any(a is x for x in members):
+                    want = was @ R if op == "transform" else was + v
+                    if not np.allclose(now, want, rtol=0, atol=1e-9 * (1 + np.abs(want).max())):
+                        bad_member = i
+                elif not np.array_equal(now, was):
+                    bad_moved = i
+            if bad_moved is not None:
+                ctx.violation(f"stale-view:{op}:unselected-atom-moved-after-parent-edit", case=case, atom=bad_moved, **desc)
+            if bad_member is not None:
+                ctx.violation(f"stale-view:{op}:selected-atom-not-moved-as-requested-after-parent-edit", case=case, atom=bad_member, **desc)
+
 
 KINDS = {"staleview": chunk_staleview, "testsuite": chunk_testsuite, "rotvec": chunk_rotvec, "rotaxis": chunk_rotaxis, "geom": chunk_geom, "ens": chunk_ens,
          "dihedral": chunk_dihedral, "align": chunk_align, "realistic": chunk_realistic}
